@@ -2,6 +2,7 @@
 from pyvc.run import Prop
 from pyvc.contracts import REGISTRY
 import contracts.core, contracts.tags, contracts.dt_string, contracts.dt_in, contracts.dt_util, contracts.dt_insv  # noqa
+from contracts.c08_tree import tree_push_pop_pairing
 from native import c08 as native_c08
 
 M = 'DocumentTemplate._DocumentTemplate'
@@ -25,14 +26,23 @@ def _bounded(tier):
                 cases=n, violation=bool(fail), witness=fail)
 
 
+def _tree_bounded(tier):
+    n, fail = native_c08.tree_search()
+    return dict(name='C08.native_tree_failures', tool='native enumeration on the real code',
+                bound='dtml-tree with branches_expr failing on its k-th call, k <= 7, with and without expand_all, inside dtml-try',
+                cases=n, violation=bool(fail), witness=fail)
+
+
 PROP = Prop(
     'C08',
     contracts=[REGISTRY[f] for f in FUNCS],
     claims=['*', '!*C10.*', '!*C11.*', '!*C12.*', '!*.cover.*'],
+    structural=[tree_push_pop_pairing],
     native_default=native_c08.native_for,
-    bounded=[_bounded],
-    not_decided=['TreeDisplay.TreeTag.tpRender / tpRenderTABLE (dtml-tree) push and pop the namespace too; they are not under '
-                 'contract (290-line recursive renderer outside the engine\'s reach) and are covered only by nothing here',
+    bounded=[_bounded, _tree_bounded],
+    not_decided=['TreeDisplay.TreeTag.tpRender / tpRenderTABLE (dtml-tree) are not symbolically executed (290-line recursive '
+                 'renderer); their push/pop discipline is decided by the syntactic sufficient condition C08.tree.* (every push '
+                 'immediately followed by try/finally popping as many entries, no other pop) on the real source',
                  'third-party tag classes and namespace callables are assumed to obey the same stack-neutral protocol'],
 )
 
@@ -42,11 +52,14 @@ MANIFEST = dict(
          'exceptional exit, DTReturn included) proved by symbolic execution of the real bodies of render_blocks(_), With/Let/Try/'
          'Raise/Return render functions, both dtml-in renderers and String.__call__ in its sub-template role; an exceptional '
          'path is forked at every call, so "an exception at any point" is covered for every template by induction over block '
-         'nesting (each function is proved assuming the same contract for the blocks it calls).',
+         'nesting (each function is proved assuming the same contract for the blocks it calls). dtml-tree (tpRender, tpRenderTABLE, '
+         'get_items): syntactic frame condition on the real source -- every push immediately followed by try/finally popping as '
+         'many entries, no other pop (C08.tree.*).',
     note='Trusted: pyvc, z3, CPython ast. Assumed: opaque callables (namespace values, expressions, third-party tags) obey the '
          'protocol; io.StringIO/traceback.print_exc do not raise; truthiness/len of plain values do not raise; a namespace has '
-         'both guard attributes set (established by String.__call__); dtml-tree renderer not covered. The native injection sweep '
+         'both guard attributes set (established by String.__call__); the dtml-tree renderer is covered by the syntactic '
+         'condition only (its bodies are not symbolically executed). The native injection sweep '
          'is a bounded stand-in and is not counted as proof.',
-    technique='contract-based deductive verification (pyvc symbolic execution of the real source + z3), loop invariants and cut points',
+    technique='contract-based deductive verification (pyvc symbolic execution of the real source + z3), loop invariants and cut points; AST frame obligations for the dtml-tree renderer',
     design_ref='DESIGN.md 4 C08',
 )
